@@ -4,6 +4,7 @@ import (
 	"fmt"
 	"go/token"
 	"go/types"
+	"sort"
 	"strings"
 
 	"golang.org/x/tools/go/ssa"
@@ -164,6 +165,7 @@ func runC17(p *core.Prog, r *core.Report) {
 	c17R5(p, r, pi)
 	c17R6(p, r)
 	c12R6(p, r, "C17.R6")
+	c17R7(p, r)
 }
 
 func c17R1(p *core.Prog, r *core.Report, pi *pqInfo) {
@@ -564,8 +566,56 @@ func c17R5(p *core.Prog, r *core.Report, pi *pqInfo) {
 // ---------------------------------------------------------------------------------------------
 // R6: callers release (P8)
 
+// isLuaRaise: methods of the Lua state that do not return (they panic with a Lua error).
+func isLuaRaise(f *types.Func) bool {
+	if f == nil || f.Pkg() == nil || !strings.HasSuffix(f.Pkg().Path(), "gopher-lua") {
+		return false
+	}
+	switch f.Name() {
+	case "RaiseError", "Error", "ArgError", "TypeError":
+		return true
+	}
+	return strings.HasPrefix(f.Name(), "Check")
+}
+
+// luaRaisers: module functions from which a Lua raise is reachable through static calls.
+func luaRaisers(p *core.Prog) map[*ssa.Function]bool {
+	direct := map[*ssa.Function]bool{}
+	for _, fn := range p.ModFuncs {
+		core.Calls(fn, func(c ssa.CallInstruction) {
+			if cal := core.Callee(c); cal != nil && isLuaRaise(cal) {
+				direct[fn] = true
+			}
+		})
+	}
+	// propagate over static calls only (a function value stored somewhere is not a call)
+	changed := true
+	for changed {
+		changed = false
+		for _, fn := range p.ModFuncs {
+			if direct[fn] {
+				continue
+			}
+			core.Calls(fn, func(c ssa.CallInstruction) {
+				if _, isDefer := c.(*ssa.Defer); isDefer {
+					return
+				}
+				if _, isGo := c.(*ssa.Go); isGo {
+					return
+				}
+				if g := core.CalleeFn(c); g != nil && direct[g] && !direct[fn] {
+					direct[fn] = true
+					changed = true
+				}
+			})
+		}
+	}
+	return direct
+}
+
 func c17R6(p *core.Prog, r *core.Report) {
 	const rule = "C17.R6"
+	raisers := luaRaisers(p)
 	for _, fn := range p.ModFuncs {
 		if pk := core.FuncPkg(fn); pk == nil || pk.Path() == modPath(pqRel) {
 			continue
@@ -672,16 +722,157 @@ func c17R6(p *core.Prog, r *core.Report) {
 			}
 			seen := core.Reach{Stop: released, StopEdge: stopEdge}.FromInstr(call)
 			bad := ""
+			raise := ""
 			for in := range seen {
 				if ret, isRet := in.(*ssa.Return); isRet && !released(in) {
 					bad = p.Pos(ret.Pos())
 				}
+				// a call that does not return normally (Lua errors are panics, panic itself) while the
+				// slot is held and no release is deferred yet
+				if cc, isCall := in.(ssa.CallInstruction); isCall && !released(in) {
+					if b, isB := cc.Common().Value.(*ssa.Builtin); isB && b.Name() == "panic" {
+						raise = p.Pos(in.Pos())
+					} else if g := core.CalleeFn(cc); g != nil && raisers[g] {
+						raise = p.Pos(in.Pos())
+					} else if cal := core.Callee(cc); cal != nil && isLuaRaise(cal) {
+						raise = p.Pos(in.Pos())
+					}
+				}
 			}
-			if bad != "" {
+			if bad == "" && raise != "" {
+				r.Violated(rule, fname, label, p.Pos(c.Pos()), "a call at "+raise+" raises a Lua error (a panic) or panics while the slot is held and before any release is deferred: the slot is lost and later callers of this throttle block forever")
+			} else if bad != "" {
 				r.Violated(rule, fname, label, p.Pos(c.Pos()), "a return at "+bad+" is reachable while the slot is held (no call, defer or hand-over of the release function on that path): the slot is lost and later callers of this throttle block forever")
 			} else {
 				r.Held(rule, fname, label, p.Pos(c.Pos()), "released, deferred or handed over on every path")
 			}
 		})
 	}
+}
+
+// ---------------------------------------------------------------------------------------------
+// R7: a throttle keeps its identity while slots may be held
+
+func isQueueType(t types.Type) bool {
+	n := core.NamedOf(t)
+	return n != nil && n.Obj().Pkg() != nil && n.Obj().Pkg().Path() == modPath(pqRel) && n.Obj().Name() == "Queue"
+}
+
+func c17R7(p *core.Prog, r *core.Report) {
+	const rule = "C17.R7"
+	r.Rule(rule, "a throttle is created once per key and never dropped or replaced: no delete on a map of queues, a map entry is stored only on the miss edge of a lookup in the same map, and a queue-typed struct field has a single store site (its creation or an option)", 3)
+	type site struct {
+		fn  *ssa.Function
+		pos string
+		in  ssa.Instruction
+	}
+	fieldStoresBy := map[string][]site{}
+	for _, fn := range p.ModFuncs {
+		if pk := core.FuncPkg(fn); pk == nil || pk.Path() == modPath(pqRel) || fn.Synthetic != "" {
+			continue
+		}
+		fname := p.FuncName(fn)
+		lab := labeler{}
+		for _, b := range fn.Blocks {
+			for _, in := range b.Instrs {
+				switch x := in.(type) {
+				case *ssa.Call:
+					if bi, ok := x.Call.Value.(*ssa.Builtin); ok && (bi.Name() == "delete" || bi.Name() == "clear") && len(x.Call.Args) > 0 {
+						if mt, ok := x.Call.Args[0].Type().Underlying().(*types.Map); ok && isQueueType(mt.Elem()) {
+							r.Violated(rule, fname, lab.next(bi.Name()+" on a map of throttles"), p.Pos(x.Pos()), "the queue is dropped while callers may hold or wait for its slots; the next lookup creates a fresh queue with every slot free, so more than the limit run at once")
+						}
+					}
+				case *ssa.MapUpdate:
+					mt, ok := x.Map.Type().Underlying().(*types.Map)
+					if !ok || !isQueueType(mt.Elem()) {
+						continue
+					}
+					label := lab.next("store into a map of throttles")
+					// fresh map (constructor) or behind the miss edge of a lookup in the same map
+					mp := accessPath(x.Map)
+					okGuard := anyGuard(b, func(c ssa.Value, pol bool) bool {
+						if pol {
+							return false
+						}
+						ex, isEx := c.(*ssa.Extract)
+						if !isEx || ex.Index != 1 {
+							return false
+						}
+						lk, isLk := ex.Tuple.(*ssa.Lookup)
+						return isLk && lk.CommaOk && accessPath(lk.X) == mp && mp != ""
+					})
+					if !okGuard {
+						// nil-test form: if m[k] == nil { m[k] = New() }
+						okGuard = anyGuard(b, func(c ssa.Value, pol bool) bool {
+							x2, neq, isNil := errCmpNil(c)
+							if !isNil || neq == pol {
+								return false
+							}
+							lk, isLk := x2.(*ssa.Lookup)
+							return isLk && accessPath(lk.X) == mp && mp != ""
+						})
+					}
+					r.Check(okGuard, rule, fname, label, p.Pos(x.Pos()), "an entry is only created on the miss edge of a lookup in the same map (an existing queue is never replaced)")
+				case *ssa.Store:
+					fa, ok := x.Addr.(*ssa.FieldAddr)
+					if !ok {
+						continue
+					}
+					pt, ok := fa.Type().Underlying().(*types.Pointer)
+					if !ok || !isQueueType(pt.Elem()) {
+						continue
+					}
+					if core.IsNilConst(x.Val) {
+						r.Violated(rule, fname, lab.next("throttle field cleared"), p.Pos(x.Pos()), "the queue is dropped while callers may hold or wait for its slots")
+						continue
+					}
+					n, f := core.FieldAddrInfo(fa)
+					key := "?." + f
+					if n != nil {
+						key = strings.TrimPrefix(n.Obj().Pkg().Path(), modPath("")+"/") + "." + n.Obj().Name() + "." + f
+					}
+					fieldStoresBy[key] = append(fieldStoresBy[key], site{fn, p.Pos(x.Pos()), x})
+				}
+			}
+		}
+	}
+	var keys []string
+	for k := range fieldStoresBy {
+		keys = append(keys, k)
+	}
+	sort.Strings(keys)
+	for _, k := range keys {
+		ss := fieldStoresBy[k]
+		if len(ss) == 1 {
+			r.Held(rule, p.FuncName(ss[0].fn), "store to throttle field "+k, ss[0].pos, "the only store to this field")
+			continue
+		}
+		// several sites: each must store into a struct allocated in the same function
+		for i, st := range ss {
+			fresh := false
+			if s2, ok := st.in.(*ssa.Store); ok {
+				if fa, ok := s2.Addr.(*ssa.FieldAddr); ok {
+					if al, ok := fa.X.(*ssa.Alloc); ok && al.Heap || isNewStruct(fa.X) {
+						fresh = true
+					}
+				}
+			}
+			r.Check(fresh, rule, p.FuncName(st.fn), fmt.Sprintf("store to throttle field %s#%d", k, i+1), st.pos, "the field is written at several places; each one must initialise a struct created in the same function (a queue that callers may hold slots of is never replaced)")
+		}
+	}
+}
+
+func isNewStruct(v ssa.Value) bool {
+	switch x := v.(type) {
+	case *ssa.Alloc:
+		return true
+	case *ssa.Phi:
+		for _, e := range x.Edges {
+			if !isNewStruct(e) {
+				return false
+			}
+		}
+		return true
+	}
+	return false
 }
